@@ -81,7 +81,10 @@ def observe(run, solution, where, moments, vs, case):
     mb = run.solver.method.best
     p3 = tuple(float(v) for v in mb.point.floatVariables) if mb is not None else None
     v3 = mb.functionValues[0].value if mb is not None else None
-    if (p2, v2) != (point, value) or (p3, v3) != (point, value):
+    refined = any(e[0] != "global" for e in log)
+    # (after a local refinement the METHOD's best may legitimately be another trial than the reported one: the search compares new
+    # trials with the value it stored before the refinement, the Solution keeps the refined trial while it is better - repair F14)
+    if (p2, v2) != (point, value) or (not refined and (p3, v3) != (point, value)):
         vs.append(oc.violation(PROP, case, "views-agree", dict(obs, GetResults=[p2, v2], method_best=[p3, v3])))
     if mb is not None and not any(e[0] != "global" for e in log) and mb.GetZ() != value:
         vs.append(oc.violation(PROP, case, "z-consistent", dict(obs, best_z=mb.GetZ())))
@@ -106,7 +109,7 @@ def _check_case(case, front):
     box = [None]
     lst = make_listener(box, moments, vs, case)
     bare = bool(case.get("bare"))          # no listener attached: nothing calls GetResults behind the caller's back
-    run = oc.Run(case, listeners=front + ([] if bare else [lst]), cap=(4 * max(case["lim"], 16) + 64) + (2000 if front else 0))
+    run = oc.Run(case, listeners=front + ([] if bare else [lst]), cap=(4 * max(case["lim"], 16) + 64) + (2000 if front else 0) + sum(case.get("post", [])))
     box[0] = run
     err = None
     info = {"bare": bare}
@@ -125,6 +128,13 @@ def _check_case(case, front):
         sol = run.solve()
         observe(run, sol, "returned Solution", moments, vs, case)
         observe(run, run.solver.GetResults(), "GetResults after Solve", moments, vs, case)
+        for b in case.get("post", []):
+            # the search is CONTINUED after Solve (with a refined solution, if refinement is on): the optimum reported from now on
+            # must still be the smallest value evaluated so far, local phase included (repaired defect F14)
+            if not run.iterate(b):
+                break
+            observe(run, run.solver.GetResults(), "after DoGlobalIteration continued after Solve", moments, vs, case)
+            observe(run, sol, "Solution returned by Solve, after further iterations", moments, vs, case)
     except BaseException as e:                 # noqa
         err = repr(e)
     if run.trouble(err):
@@ -172,6 +182,8 @@ def gen(r):
             case["bare"] = True
     if r.random() < 0.15:
         case["fresh_holder"] = True       # the objective returns a NEW value holder instead of filling in the one it was given
+    if case.get("refine") and r.random() < 0.7 or r.random() < 0.05:
+        case["post"] = [r.choice([1, 1, 2, 5, 20]) for _ in range(r.randint(1, 12))]
     if case["n"] <= 2 and not case.get("bare") and case["lim"] <= 40 and r.random() < 0.06:
         case["painter"] = True            # the shipped StaticPaintListener in front of the recording listener
     return case
